@@ -183,8 +183,12 @@ TARGETS = [T0, ('a', 'c06.f', 'x'), ('a/b', 'c06.f', 'y'), ('', 'pkg.mod.dup', '
 OTHER_KINDS = ['int', 'str_long_spaces', 'obj', 'nested_wide', 'intenum']
 SAME_NAMED_METHODS = [('', 'east.jobs.Worker.run', 'speed'), ('', 'west.jobs.Worker.run', 'speed'),
                       ('', 'west.jobs.Worker', 'n')]
+# a method bound under several scopes; macros / parameters bound to falsy literals
+EXTRA = [(('s', 'c06.K.meth', 'v'), 'int'), (('a/b', 'c06.K.meth', 'v'), 'str_short'), (('zz', 'c06.K.meth', 'v'), 'obj'),
+         (('mac', 'gin.macro', 'value'), 'none'), (('a/b', 'gin.macro', 'value'), 'false'), (('mac0', 'gin.macro', 'value'), 'zero'),
+         (('', 'c06.g', 't'), 'none'), (('me', 'gin.macro', 'value'), 'empty_str')]
 POOL = ([(T0, k) for k in VALUES] + [(t, k) for t in TARGETS[1:] for k in OTHER_KINDS] +
-        [(t, k) for t in SAME_NAMED_METHODS for k in ('int', 'obj')])
+        [(t, k) for t in SAME_NAMED_METHODS for k in ('int', 'obj')] + EXTRA)
 WIDTHS = lambda ci: [ci + 1, ci + 2, 10, 20, 40, 80, 200]  # noqa: E731
 INDENTS = [0, 2, 4, 8]
 
